@@ -17,6 +17,9 @@ case: ( trigger roller pre a0 ops )   -- see harness/src/rolling_c05.rs
            | [10, [chunk...], record, via] append whose encoder (via 1) or roller (via 2) appends `record` to a SECOND
              rolling appender (side/cur.log, SizeTrigger(10), window of 2) from inside the call; for the model of the
              main appender an ordinary append; the second appender is judged by the stream / size oracles
+           | [11, [chunk...]] append whose encoder writes the chunks, then returns Err (always followed by a plain append;
+             post-processing triggers only): no consultation, Err, nothing on disk yet; the model sees the bytes as
+             the head of the next record (they are flushed and COUNTED with it)
            | [8] newest archive slot becomes a symlink to /dev/full (real ENOSPC on the archive write) | [9] heal;
              appends between 8 and 9 are, for the model and the oracles, appends with a failing roller (kind 7)
 impl/model result: one entry per op (entry 0 = initial build):
@@ -120,6 +123,7 @@ def flatten_for_model(case, impl):
     if trig[0] == 3:
         trig = [2, 1, time_script(case)]
     out = []
+    carry = []
     for i, o in enumerate(ops):
         if o[0] in (3, 6, 8, 9):
             continue
@@ -131,6 +135,13 @@ def flatten_for_model(case, impl):
             continue
         if o[0] == 10:
             out.append([0, o[1]])      # for the main appender an ordinary append (the nested one goes elsewhere)
+            continue
+        if o[0] == 11:
+            carry = list(o[1])         # the failed record's bytes wait in the writer's buffer ...
+            continue
+        if o[0] == 0 and carry:
+            out.append([0, carry + list(o[1])])     # ... and reach the file, and the byte count, with the next record
+            carry = []
             continue
         if o[0] != 2:
             out.append(o)
@@ -160,7 +171,7 @@ def model_lines(ctx, cases, lines, impl_lines):
     vc = ctx["vc"]
     out = []
     for c, line, il in zip(cases, lines, impl_lines):
-        if c[0][0] == 3 or any(o[0] in (2, 3, 4, 5, 6, 8, 9, 10) for o in c[4]):
+        if c[0][0] == 3 or any(o[0] in (2, 3, 4, 5, 6, 8, 9, 10, 11) for o in c[4]):
             try:
                 iv = vc.parse(il)
             except Exception:
@@ -226,6 +237,22 @@ def compare(case, impl, model):
         if any(len(c) != 4 for c in consults):
             return "op %d: malformed consultation entry" % i
         o = ops[i - 1] if i > 0 else [1, a0]
+        # --- an append whose ENCODER fails after writing its chunks (op 11; only before a plain append, only with
+        # post-processing triggers, chunks far below the 1 KiB buffer): the call returns Err before flush and policy,
+        # nothing reaches the disk yet; the bytes are counted and written together with the next record
+        if o[0] == 11:
+            if consults:
+                return "op %d: the policy was consulted although the encoder failed" % i
+            if errors != 1:
+                return "op %d: append returned Ok although its encoder failed" % i
+            # (the call may have re-created the active file, empty, after a rotation: get_writer)
+            fresh = sorted((prev_snap or []) + [[0, 0, b""]]) if not any(e[0] == 0 for e in (prev_snap or [])) else None
+            if snap != prev_snap and snap != fresh:
+                return "op %d: directory changed by an append whose encoder failed (the bytes fit the buffer)" % i
+            prev_snap = snap
+            stream_ok = False        # from here on the file holds the fragment of an unacknowledged record
+            STATS["failed_encodes"] = STATS.get("failed_encodes", 0) + 1
+            continue
         # --- ops without an appender call
         if o[0] in (3, 6, 8, 9):
             if consults or errors:
@@ -479,6 +506,8 @@ def describe(case):
             return "archive slot healed"
         if o[0] == 7:
             return "append %d bytes in %d chunk(s), roller set to fail" % (len(rec_of(o[1])), len(o[1]))
+        if o[0] == 11:
+            return "append %d bytes in %d chunk(s), the encoder then FAILS" % (len(rec_of(o[1])), len(o[1]))
         if o[0] == 10:
             return ("append %d bytes in %d chunk(s); its %s appends a %d-byte record to a second rolling appender "
                     "(size trigger 10, window 2) from inside the call" % (
